@@ -16,6 +16,7 @@ DEFAULTS = {
     'forced_excview': (True, '__no_permission_required__'),
     'ctor_policy_is_none_test': False, 'ctor_defperm_is_none_test': False,
     'static_none_default': '__no_permission_required__',
+    'slash_inner_permission': None,
     'preserved_attrs': ['__permitted__', '__call_permissive__', '__permission__', '__predicated__', '__predicates__',
                         '__accept__', '__order__', '__text__'],
     'secured_wrappers': ['_secured_view', '_authdebug_view'],
@@ -132,6 +133,20 @@ def extract(src):
                 raise Bad('%s does not end in self.add_view(**settings)' % qual)
     guard('forced settings of add_forbidden_view/add_notfound_view/add_exception_view', forced)
 
+    def slash():
+        # add_notfound_view(append_slash=...): view = self._derive_view(view, attr=attr, renderer=renderer[, permission=X])
+        m = F.Module(src, 'pyramid/config/views.py')
+        fn = m.find('ViewsConfiguratorMixin.add_notfound_view')
+        calls = [n for n in ast.walk(fn) if isinstance(n, ast.Call) and isinstance(n.func, ast.Attribute)
+                 and n.func.attr == '_derive_view']
+        if len(calls) != 1:
+            raise Bad('add_notfound_view: %d _derive_view calls' % len(calls))
+        kw = _kw(calls[0])
+        if set(kw) - {'attr', 'renderer', 'permission'} or len(calls[0].args) != 1:
+            raise Bad('add_notfound_view: _derive_view arguments %s' % sorted(kw))
+        vals['slash_inner_permission'] = env[_name(kw['permission'])] if 'permission' in kw else None
+    guard('add_notfound_view append_slash derivation', slash)
+
     def ctor():
         m = F.Module(src, 'pyramid/config/__init__.py')
         fn = m.find('Configurator.setup_registry')
@@ -206,6 +221,7 @@ def emit(vals):
     for k in ('ctor_policy_is_none_test', 'ctor_defperm_is_none_test'):
         out.append('Definition %s : bool := %s.\n' % (k, F.coq_bool(vals[k])))
     out.append('Definition static_none_default : text := %s.\n' % F.coq_text(vals['static_none_default']))
+    out.append('Definition slash_inner_permission : option text := %s.\n' % _opt(vals['slash_inner_permission']))
     out.append('Definition preserved_attrs : list text := %s.\n' % F.coq_texts(vals['preserved_attrs']))
     out.append('Definition secured_wrappers : list text := %s.\n' % F.coq_texts(vals['secured_wrappers']))
     return ''.join(out)
